@@ -99,7 +99,7 @@ func buildSim(flavour string) (string, string, *overlayStats) {
 	// prune old builds (disk is limited)
 	if ents, err := os.ReadDir(filepath.Join(verifDir, ".build")); err == nil {
 		for _, e := range ents {
-			if e.Name() != th {
+			if fi, err := e.Info(); err == nil && e.Name() != th && time.Since(fi.ModTime()) > 45*time.Minute {
 				os.RemoveAll(filepath.Join(verifDir, ".build", e.Name()))
 			}
 		}
@@ -529,7 +529,8 @@ func matchKnown(v *violation, ks []knownFinding) *knownFinding {
 		}
 		ok := true
 		for fk, fv := range k.Facts {
-			if v.Facts[fk] != fv {
+			// a fact value is an anchored regular expression
+			if m, err := regexp.MatchString("^(?:"+fv+")$", v.Facts[fk]); err != nil || !m {
 				ok = false
 			}
 		}
